@@ -766,7 +766,7 @@ def gen_corr_case(rng, L, n=None, builtin=False, other_px=False,
 def correspondence(run):
     rng = run.rng
     groups = []          # (Lut, use_dec, [cases])
-    nuser = 200 if run.thorough else 20
+    nuser = 200 if run.thorough else 16
     per = 8 if run.thorough else 6
     for c in load_corpus():
         if "x" in c and "check" not in c:
@@ -872,8 +872,27 @@ def gen_filespec(rng):
     elif r < 0.58:
         cols = [(1, 1), (0, 0), (2, 2), (3, 3)]    # four header columns
     units = [rng.random() > 0.08 for _ in range(3)]
-    return dict(cols=cols, units=units,
+    return dict(cols=cols, units=units, tag=rng.randint(1, 900),
                 ident=rng.choice([None, 1, 2]))     # index into id pool
+
+
+def filespec_rows(spec):
+    t = spec["tag"]
+    return [(10.0, 0.01, float(t)), (100.0, 0.02, float(t + 1)),
+            (60.0, 0.1, float(t + 2))]
+
+
+def filespec_coq(spec):
+    ic = spec["ident_code"]
+    rows = "; ".join("(%s,%s,%s)" % tuple(qlit(v) for v in r)
+                     for r in filespec_rows(spec))
+    return ("mkFile %s %s %s %s [%s] (Qmake 20 1) (Qmake 1 25) (Qmake 15 1) "
+            "[%s]" % (common.blit(spec["units"][0]),
+                      common.blit(spec["units"][1]),
+                      common.blit(spec["units"][2]),
+                      "None" if ic is None else "(Some %d)" % ic,
+                      "; ".join("(%d, %d)" % tuple(c) for c in spec["cols"]),
+                      rows))
 
 
 def write_filespec(path, spec, ident):
@@ -891,7 +910,7 @@ def write_filespec(path, spec, ident):
         hdr.append(FEAT_NAMES[ft] + (" [%s]" % UNIT_NAMES[un]
                                      if UNIT_NAMES[un] else ""))
     lines.append("# " + "\t".join(hdr))
-    lines += ["10.0\t0.01\t2.0", "100.0\t0.02\t8.0", "60.0\t0.1\t1.0"]
+    lines += ["\t".join("%.6e" % v for v in r) for r in filespec_rows(spec)]
     with open(path, "w") as fd:
         fd.write("\n".join(lines) + "\n")
 
@@ -925,27 +944,53 @@ def registry_correspondence(run):
             strs[100 + k] = os.path.join(emod_dir(), "lut_%s.txt" % nm)
         back = {v: k for k, v in strs.items()}
         idpool = {1: 30, 2: 31}
-        for code, spec in files.items():
+        # alternative contents a file may be rewritten with between calls
+        alts = [gen_filespec(rng) for _ in range(3)]
+        if rng.random() < 0.7:       # mostly loadable tables
+            for a in alts[:2]:
+                a["cols"] = rng.choice([[(1, 1), (0, 0), (2, 2)],
+                                        [(3, 3), (0, 0), (2, 2)]])
+                a["units"] = [True, True, True]
+        for code, spec in list(files.items()) + [(None, a) for a in alts]:
             ic = idpool.get(spec["ident"])
-            if spec["ident"] is not None and rng.random() < 0.15:
+            if spec["ident"] is not None and rng.random() < 0.15 and code:
                 ic = rng.choice([1, code])      # a built-in id / its own path
             spec["ident_code"] = ic
-            write_filespec(strs[code], spec,
-                           None if ic is None else strs[ic])
+            if code is not None:
+                write_filespec(strs[code], spec,
+                               None if ic is None else strs[ic])
         ops = []
-        for _ in range(rng.randint(3, 9)):
-            if rng.random() < 0.45:
+        for _ in range(rng.randint(4, 11)):
+            r = rng.random()
+            if r < 0.3:
                 p = rng.choice(list(files) + [20, 21])
                 i = rng.choice([-1, -1, 30, 31, 32, 1, rng.choice(list(files))])
                 ops.append((0, p, i))
+            elif r < 0.55:
+                # the user rewrites a LUT file in place (same path)
+                ops.append((2, rng.choice(list(files) + list(files) + [20]),
+                            rng.randrange(len(alts))))
             else:
                 x = rng.choice(list(files) + [20, 30, 31, 32, 1, 2, 3])
                 ops.append((1, x, 0))
+        if rng.random() < 0.6:
+            # load, rewrite the same path, load again (also through an
+            # identifier registered for it)
+            f = rng.choice(list(files))
+            ops += [(1, f, 0), (0, f, 32), (1, 32, 0),
+                    (2, f, rng.randrange(2)), (1, f, 0), (1, 32, 0)]
         # the implementation
         out = []
         added = []
         try:
+            current = dict(files)
             for tag, x, y in ops:
+                if tag == 2:
+                    a = alts[y]
+                    write_filespec(strs[x], a, None if a["ident_code"] is None
+                                   else strs[a["ident_code"]])
+                    current[x] = a
+                    continue
                 if tag == 0:
                     before = set(load.EXTERNAL_LUTS)
                     try:
@@ -962,15 +1007,20 @@ def registry_correspondence(run):
                     out.append(ERR_CODES.get(type(exc).__name__, 8))
                     continue
                 pc = back.get(pth, -7)
-                spec = files.get(pc)
+                spec = current.get(pc)
                 vol = bool(spec) and spec["cols"][0][0] == 3
-                kw = dict(deform=np.array([0.02]), medium=5.0,
+                # at the first node, in the table's own set-up: the value is
+                # the first node's modulus (the content tag)
+                kw = dict(deform=np.array([0.01]), medium=15.0,
+                          channel_width=20.0, flow_rate=0.04, px_um=0,
                           temperature=None, visc_model=None,
                           lut_data=strs[x])
-                kw["volume" if vol else "area_um"] = np.array([50.0])
+                kw["volume" if vol else "area_um"] = np.array([10.0])
                 try:
-                    em.get_emodulus(**kw)
-                    out += [0, pc, 3 if vol else 1]
+                    e = em.get_emodulus(**kw)
+                    ctag = -1 if pc > 100 else (
+                        -2 if np.isnan(e[0]) else int(round(float(e[0]))))
+                    out += [0, pc, 3 if vol else 1, ctag]
                 except Exception as exc:
                     out += [ERR_CODES.get(type(exc).__name__, 8), pc]
         finally:
@@ -979,36 +1029,35 @@ def registry_correspondence(run):
         # the model
         frec = []
         for code, spec in sorted(files.items()):
-            ic = spec["ident_code"]
-            frec.append("(%d, mkFile %s %s %s %s [%s] (Qmake 20 1) "
-                        "(Qmake 1 25) (Qmake 15 1) [])" % (
-                            code, common.blit(spec["units"][0]),
-                            common.blit(spec["units"][1]),
-                            common.blit(spec["units"][2]),
-                            "None" if ic is None else "(Some %d)" % ic,
-                            "; ".join("(%d, %d)" % c for c in spec["cols"])))
+            frec.append("(%d, %s)" % (code, filespec_coq(spec)))
         for k in builtin_codes:
             frec.append("(%d, mkFile true true true (Some %d) "
                         "[(1, 1); (0, 0); (2, 2)] (Qmake 20 1) (Qmake 1 25) "
                         "(Qmake 15 1) [])" % (100 + k, k))
         world = "mkWorld [%s] [(1, 101); (2, 102); (3, 103)] [] [] 0%%N" % \
             "; ".join(frec)
-        rendered.append("(%s,\n [%s])" % (world, "; ".join(
-            "(%s, %s, %s)" % tuple(common.zlit(v) for v in o) for o in ops)))
+        rendered.append("(%s,\n [%s],\n [%s])" % (
+            world, "; ".join(filespec_coq(a) for a in alts), "; ".join(
+                "(%s, %s, %s)" % tuple(common.zlit(v) for v in o)
+                for o in ops)))
         expected.append(out)
         case = dict(kind="registry", files={str(k): dict(
-            cols=v["cols"], units=v["units"], ident=v["ident_code"])
-            for k, v in files.items()}, ops=ops)
+            cols=v["cols"], units=v["units"], ident=v["ident_code"],
+            tag=v["tag"]) for k, v in files.items()},
+            alts=[dict(cols=a["cols"], units=a["units"],
+                       ident=a["ident_code"], tag=a["tag"]) for a in alts],
+            ops=ops)
         cases.append(case)
     res = common.coq_map(run.scratch, "c05_reg", HEADER,
-                         "(fun c => run_load_ops (fst c) (snd c))", rendered,
+                         "(fun c => run_load_ops (fst (fst c)) (snd (fst c)) "
+                         "(snd c))", rendered,
                          shard=50)
     for case, m, i in zip(cases, res, expected):
         run.record_case(case, True, sample=False)
         run.count("corr:registry")
         for o in case["ops"]:
-            run.count("corr:registry-op=%s" % ("register" if o[0] == 0
-                                               else "load"))
+            run.count("corr:registry-op=%s" % ["register", "load",
+                                               "rewrite-file"][o[0]])
         run.corr_checked += 1
         if m != i:
             run.mismatch(case, m, i, what="registry/loading bookkeeping")
@@ -1513,14 +1562,116 @@ def chk_isoelastics(sc, rng):
     return None
 
 
+def chk_rewrite(sc, rng, scratch):
+    """the table is read when get_emodulus is called: after the user rewrote
+    the LUT file at the same path (same size and different size), or modified
+    his (array, meta) table in place, the result is the interpolation of the
+    CURRENT content -- by path, by registered identifier and by tuple"""
+    from dclab.features.emodulus import load
+    if sc.L.name or sc.x.size == 0:
+        return None
+    L1 = sc.L
+    _REG["n"] += 1
+    ident = "verif-rw-%d-%d" % (os.getpid(), _REG["n"])
+    path = os.path.join(scratch, ident + ".txt")
+
+    def variant(L, k):
+        nodes = L.nodes.copy()
+        nodes[:, 2] = nodes[:, 2] * k + 0.25
+        if k > 2:                      # other support as well
+            nodes[:, 1] = nodes[:, 1] * 0.75
+        return Lut(L.feat, L.cw, L.fr, L.visc, nodes)
+
+    def write_fixed(L, extra=False):
+        m = L.meta(ident)
+        del m["column features"], m["column units"]
+        lines = ["# verification LUT", "# BEGIN METADATA"]
+        lines += ["# " + ln for ln in json.dumps(m, indent=2,
+                                                 sort_keys=True).split("\n")]
+        lines += ["# END METADATA", "#"]
+        unit = "[um^2]" if L.feat == "area_um" else "[um^3]"
+        lines.append("# %s %s\tdeform\temodulus [kPa]" % (L.feat, unit))
+        for r in L.nodes:
+            lines.append("\t".join("%.17e" % float(v) for v in r))
+        if extra:
+            lines.append("# trailing comment changes the size")
+        with open(path, "w") as fd:
+            fd.write("\n".join(lines) + "\n")
+        # what np.loadtxt will read
+        return Lut(L.feat, L.cw, L.fr, L.visc,
+                   [[float("%.17e" % float(v)) for v in r] for r in L.nodes])
+
+    def expect(Lc, how, arg):
+        scc = Scn(dict(sc.case, lut=lut_to_case(Lc)))
+        E = scc.f(arg=arg)
+        R, dist, cond, _ = scc.ref()
+        bad = compare_values(R, E, dist, cond)
+        if bad:
+            i = bad[0]
+            return ("%s: event %d (x=%r, deform=%r): get_emodulus=%r but the "
+                    "interpolation of the CURRENT table gives %r" % (
+                        how, i, float(sc.x[i]), float(sc.d[i]),
+                        float(np.atleast_1d(E)[i]), float(R[i])))
+        return None
+    try:
+        La = write_fixed(L1)
+        size_a = os.path.getsize(path)
+        why = expect(La, "LUT by path, first call", path)
+        if why:
+            return why
+        Lb = write_fixed(variant(L1, 1.5))
+        same_size = os.path.getsize(path) == size_a
+        why = expect(Lb, "LUT by path after the file was rewritten in place "
+                     "(%s size)" % ("same" if same_size else "different"),
+                     path)
+        if why:
+            return why
+        load.register_lut(path)
+        why = expect(Lb, "registered identifier", ident)
+        if why:
+            return why
+        Lc = write_fixed(variant(L1, 3.0), extra=True)
+        why = expect(Lc, "registered identifier after its file was "
+                     "rewritten (different size)", ident)
+        if why:
+            return why
+        why = expect(Lc, "LUT by path after the second rewrite", path)
+        if why:
+            return why
+        Ld = write_fixed(L1)
+        why = expect(Ld, "registered identifier after the original content "
+                     "was restored", ident)
+        if why:
+            return why
+    finally:
+        load.EXTERNAL_LUTS.pop(ident, None)
+    # (array, meta) modified by the caller between calls
+    arr, meta = lut_arg_tuple(L1)
+    why = expect(L1, "(array, meta), first call", (arr, meta))
+    if why:
+        return why
+    arr[:, 2] *= 2.0
+    arr[:, 0] *= 1.25
+    L2 = Lut(L1.feat, L1.cw, L1.fr, L1.visc, arr.copy())
+    why = expect(L2, "(array, meta) after the caller modified the array in "
+                 "place", (arr, meta))
+    if why:
+        return why
+    meta["fluid_viscosity"] = L1.visc * 2
+    L3 = Lut(L1.feat, L1.cw, L1.fr, L1.visc * 2, arr.copy())
+    return expect(L3, "(array, meta) after the caller modified the meta "
+                  "dict", (arr, meta))
+
+
 CHECKS = {
     "reference": chk_reference, "batch": chk_batch,
     "scalar_vs_array": chk_scalar_vs_array,
     "proportional": chk_proportional, "rescale": chk_rescale,
     "px0": chk_px0, "nomutation": chk_nomutation, "lutvia": chk_lutvia,
     "dataset": chk_dataset, "isoelastics": chk_isoelastics,
+    "rewrite": chk_rewrite,
 }
-NEED_SCRATCH = ("lutvia", "dataset")
+NEED_SCRATCH = ("lutvia", "dataset", "rewrite")
 
 
 def run_check(case, scratch, seed=0):
@@ -1559,6 +1710,8 @@ def oracle_cases(run):
     for name in BUILTIN:
         L = builtin_lut(name)
         for chk in names:
+            if chk == "rewrite":
+                continue
             reps = (3 if th else 1)
             if chk == "reference":
                 reps = 8 if th else 3
@@ -1579,7 +1732,8 @@ def oracle_cases(run):
                          feat="volume" if vol else None)
         for chk in names:
             if chk == "isoelastics" or (
-                    rng.random() < 0.5 and chk not in ("reference", "batch")):
+                    rng.random() < 0.5 and chk not in ("reference", "batch",
+                                                       "rewrite")):
                 continue
             n = rng.choice([1, 2, 3, 7, 20, 60])
             case, kinds = gen_scenario(
